@@ -16,7 +16,7 @@ class LoopSpec:
 class Contract:
     def __init__(self, qualname, params, requires=None, ensures=None, modifies=(), loops=(),
                  decreases=None, inline=False, lemmas=(), ghost=(), hints=(), configs=None,
-                 props=(), trusted=False, locals_types=None, raises=None, fresh=(), split=False):
+                 props=(), trusted=False, locals_types=None, raises=None, fresh=(), split=False, defs=None):
         self.qualname = qualname
         self.params = params              # ordered {name: type}
         self.requires = requires or (lambda v: [])
@@ -34,6 +34,7 @@ class Contract:
         self.locals_types = locals_types or {}
         self.raises = raises              # lambda v: condition under which raising is allowed
         self.fresh = list(fresh)
+        self.defs = defs              # lambda v: [(name, term)] definitional axioms of ghost functions
         self.split = split            # never merge the two arms of an `if` (one VC set per path)
 
 
